@@ -885,6 +885,72 @@ rt_fixed_unit!(c02_rt_u64__complete, u64, &SIG_T, serialize_u64, "C02.rt_u64.dec
 #[cfg(not(verif_skip_c02_rt_f64__complete))]
 rt_fixed_unit!(c02_rt_f64__complete, f64, <f64 as Type>::SIGNATURE, serialize_f64, "C02.rt_f64.decodes", "C02.rt_f64.value_equal_bitwise_incl_nan", "C02.rt_f64.consumed_equals_written");
 
+// ---- C02 composed unit for strings (bounded): real serialize_str -> real <&str>::deserialize on exactly the bytes written
+// requires v ASCII without NUL, length <= 3 (bounded)
+// ensures  decoded string == v (same length, same bytes) and consumed == written
+macro_rules! rt_str_unit {
+    ($name:ident, $n:expr, $sig:expr, $o_ok:literal, $o_val:literal, $o_len:literal) => {
+        #[cfg(kani)]
+        #[kani::proof]
+        #[kani::stub(alloc::fmt::format, stub_format)]
+        #[kani::stub(<Signature as std::str::FromStr>::from_str, stub_sig_from_str_any)]
+        #[kani::stub(<Signature as std::clone::Clone>::clone, stub_sig_clone)]
+        #[kani::stub(DeserializerCommon::parse_padding, stub_parse_padding_rt)]
+        #[kani::unwind(6)]
+        fn $name() {
+            let mut buf: [u8; 24] = kani::any();
+            let w0: usize = kani::any();
+            kani::assume(w0 <= 8);
+            let content: [u8; $n] = kani::any();
+            let mut k = 0;
+            while k < $n { kani::assume(content[k] != 0 && content[k] < 0x80); k += 1; }
+            let l: usize = kani::any();
+            kani::assume(l <= $n);
+            let v: &str = unsafe { core::str::from_utf8_unchecked(&content[..l]) };
+            let sig: &'static Signature = $sig;
+            let (endian, abs0, written) = {
+                let mut cur: Cur<'_> = Cursor::new(&mut buf[..]);
+                cur.set_position(w0 as u64);
+                let mut fds = ManuallyDrop::new(FdList::Number(0));
+                let (mut ser, _big) = any_ser(&mut cur, &mut fds, sig);
+                let bw0 = ser.0.bytes_written;
+                let abs0 = ser.0.ctxt.position() + bw0;
+                let r = serde::Serializer::serialize_str(&mut *ser, v);
+                kani::assume(r.is_ok()); // C01.ser_str.* units prove Ok for every admissible state
+                core::mem::forget(r);
+                (ser.0.ctxt.endian(), abs0, ser.0.bytes_written - bw0)
+            };
+            kani::assume(abs0 >= w0);
+            let bytes = &buf[..w0 + written];
+            let mut de: DbusDe<'_, 'static, 'static, Fd0> = DbusDe(DeserializerCommon {
+                ctxt: Context::new_dbus(endian, abs0 - w0),
+                bytes,
+                fds: None,
+                pos: w0,
+                signature: sig,
+                container_depths: ContainerDepths::default(),
+            });
+            let r = <&str>::deserialize(&mut de);
+            obl!($o_ok, r.is_ok());
+            if let Ok(got) = &r {
+                let i: usize = kani::any();
+                kani::assume(i < $n);
+                obl!($o_val, got.len() == l && (i >= l || got.as_bytes()[i] == content[i]));
+            }
+            obl!($o_len, de.0.pos - w0 == written);
+            kani::cover!(r.is_ok() && l == $n, "cover.full_length");
+            kani::cover!(r.is_ok() && l == 0, "cover.empty");
+            core::mem::forget(r);
+        }
+    };
+}
+// @unit C02.rt_str.s props=C02 kind=bounded bound=ASCII-without-NUL,L<=3 fn=<&mut.zvariant::dbus::Serializer.as.serde::Serializer>::serialize_str,<&mut.zvariant::dbus::Deserializer.as.serde::Deserializer>::deserialize_str stubs=C03.parse_padding timeout=1800
+#[cfg(not(verif_skip_c02_rt_str_s__l3))]
+rt_str_unit!(c02_rt_str_s__l3, 3, &SIG_S, "C02.rt_str.s.decodes", "C02.rt_str.s.value_equal", "C02.rt_str.s.consumed_equals_written");
+// @unit C02.rt_str.g props=C02 kind=bounded bound=ASCII-without-NUL,L<=3 fn=<&mut.zvariant::dbus::Serializer.as.serde::Serializer>::serialize_str,<&mut.zvariant::dbus::Deserializer.as.serde::Deserializer>::deserialize_str timeout=1800
+#[cfg(not(verif_skip_c02_rt_str_g__l3))]
+rt_str_unit!(c02_rt_str_g__l3, 3, &SIG_G, "C02.rt_str.g.decodes", "C02.rt_str.g.value_equal", "C02.rt_str.g.consumed_equals_written");
+
 // i8 and f32 have no D-Bus type: zvariant widens them to INT16 / DOUBLE on the wire and narrows on the way back
 // @unit C02.rt_i8 props=C02 kind=complete fn=<&mut.zvariant::dbus::Serializer.as.serde::Serializer>::serialize_i8,<&mut.zvariant::dbus::Deserializer.as.serde::Deserializer>::deserialize_i8 stubs=C03.parse_padding timeout=1800
 #[cfg(not(verif_skip_c02_rt_i8__complete))]
